@@ -154,6 +154,25 @@ def _collect_attrpath_order(
     return order
 
 
+def _carries_comment(member: Binding | Inherit | _AttrpathEntry) -> bool:
+    """Does rendering *member* emit a comment (its own trivia or its value's)?"""
+    from nix_manipulator.expressions.comment import Comment
+
+    trivia: list[Any] = []
+    if isinstance(member, _AttrpathEntry):
+        binding: Binding | Inherit = member.binding
+        trivia += member.before if member.before is not None else binding.before
+        trivia += member.after if member.after is not None else binding.after
+    else:
+        binding = member
+        trivia += list(binding.before) + list(binding.after)
+    value = getattr(binding, "value", None)
+    if isinstance(value, NixExpression):
+        trivia += list(value.before) + list(value.after)
+    # Only `# …` comments run to the end of the line; `/* … */` may sit inline.
+    return any(type(item) is Comment for item in trivia)
+
+
 def _reconcile_attrpath_order(
     values: Sequence[Binding | Inherit],
     order: Sequence[Binding | Inherit | _AttrpathEntry],
@@ -433,8 +452,12 @@ class AttributeSet(TypedExpression):
             )
             # A member that spans several lines (multi-line value assigned by an
             # edit) cannot sit in a one-line set: a re-parse would read the set
-            # as multi-line and format it differently.
-            multiline = any("\n" in item for item in inline_bindings)
+            # as multi-line and format it differently.  Neither can a member
+            # that carries a comment: `{ a = 1; # note }` comments out the brace.
+            multiline = any("\n" in item for item in inline_bindings) or any(
+                _carries_comment(item)
+                for item in _reconcile_attrpath_order(self.values, self.attrpath_order)
+            )
 
         if multiline:
             before_str = format_trivia(self.before, indent=indent)
